@@ -22,7 +22,8 @@ Record ecase := EC {
   e_events : list gev;
   e_complete : bool;        (* the crawl ran to quiescence and stop returned *)
   e_table_end : N;          (* size of the reactor state table at quiescence *)
-  e_maxretry : N            (* --max-retry *)
+  e_maxretry : N;           (* --max-retry *)
+  e_wedged : bool           (* the watchdog fired with seeds still tracked and no event at all for 35 s *)
 }.
 
 (* ---- replay through PipeLts.step ---- *)
@@ -121,7 +122,7 @@ Definition replay_ok (c : ecase) : bool :=
   | None => false
   end.
 
-Definition diff_case (c : ecase) : bool := negb (replay_ok c).
+Definition diff_case (c : ecase) : bool := negb (replay_ok c) || e_wedged c.   (* the model has no stuck state with seeds in flight (deadlock freedom) *)
 Definition diffs (l : list ecase) := bad_idx diff_case l.
 
 (* ---- monitors, on the observed events only ---- *)
@@ -261,6 +262,9 @@ Definition mon_bounds (c : ecase) : bool :=
 Definition mon_captured_at_finish (c : ecase) : bool :=
   forallb (fun e => match e with GCapt _ m _ => m =? 0 | _ => true end) (e_events c).
 
+(* m11: no seed is dropped by getting stuck: the crawl never sits with tracked seeds and nothing moving *)
+Definition mon_not_wedged (c : ecase) : bool := negb (e_wedged c).
+
 Definition mons (l : list ecase) :=
   mon_idx [mon_once; mon_done; mon_no_late_fetch; mon_all_fetched; mon_bounded; mon_idle; mon_wf; mon_one_place;
-           mon_attempts; mon_bounds; mon_captured_at_finish] l.
+           mon_attempts; mon_bounds; mon_captured_at_finish; mon_not_wedged] l.
